@@ -21,6 +21,17 @@ ASSUMPTIONS = [
     "a raising write is an allowed outcome (property text); a raising read after a successful write is not",
     "unnamed written index may come back named None or 'index' (pandas reset_index naming)",
 ]
+MANIFEST = {
+    "category": "exploration",
+    "technique": "property-based round-trip testing (Hypothesis-generated frames x write options) against an independent expected-table model",
+    "text": "Generated search over the product of 10 column kinds, 6 null patterns, boundary row counts and ~10 independent "
+            "write options; every successful write is read back and compared cell by cell (values, missingness, dtype, "
+            "index, categorical labels/order/codes) with a table computed from the case alone. Finds counterexamples, "
+            "does not establish absence.",
+    "note": "Trusted: pandas/numpy building the input frame from the case; the expected-table model in vf/cases.py + "
+            "vf/model/table.py. A raising write is an allowed outcome. Under times='int96' a datetime column may come "
+            "back as datetime64[ns] (INT96 is nanoseconds by definition); instants are compared.",
+}
 BUDGET = {"quick": {"shards": 8, "examples": 450, "wall": 100},
           "thorough": {"shards": 16, "examples": 12000, "wall": 1500}}
 
@@ -108,18 +119,19 @@ def compare_frame(fr, opts, out):
     if len(out) != n:
         return ("rowcount", "rows %d != %d" % (len(out), n))
     for c in cols:
-        r = table.compare_column(c, n, out[c["name"]])
+        r = table.compare_column(c, n, out[c["name"]], ns_ok=(opts.get("times") == "int96"))
         if r:
             return ("%s|%s" % (r[0], col_tag(c)), "column %r: %s" % (c["name"], r[1]))
     # index
     if index_written and ic is not None:
         if isinstance(out.index, pd_RangeIndex()):
             return ("index_lost|" + col_tag(ic), "written index came back as RangeIndex")
-        r = table.compare_column(ic, n, out.index, check_dtype=(ic["kind"] != "text"))
+        r = table.compare_column(ic, n, out.index, check_dtype=(ic["kind"] != "text"),
+                                 ns_ok=(opts.get("times") == "int96"))
         if r:
             return ("index_%s|%s" % (r[0], col_tag(ic)), "index: %s" % (r[1],))
         want = ic["name"]
-        if out.index.name != want and not (want is None and out.index.name == "index"):
+        if out.index.name != want and not (want is None and out.index.name in ("index", "level_0")):
             return ("index_name", "index name %r != %r" % (out.index.name, want))
     elif index_written and ic is None:
         # write_index=True on a RangeIndex: the positions 0..n-1 come back as an index
@@ -157,6 +169,7 @@ def run_case(case):
     import fastparquet
     fr, opts = case["frame"], case["opts"]
     labels = features(case)
+    n0 = "|n0" if fr["n"] == 0 else ""
     with common.Scratch() as d:
         df, path, err = write_case(case, d)
         if err is not None:
@@ -164,10 +177,10 @@ def run_case(case):
         try:
             out = fastparquet.ParquetFile(path).to_pandas()
         except Exception as e:
-            return viol("read_raised|%s|dpv%d" % (exc_sig(e), opts.get("dpv", 1)), exc_detail(e), labels=labels)
+            return viol("read_raised|%s|dpv%d%s" % (exc_sig(e), opts.get("dpv", 1), n0), exc_detail(e), labels=labels)
         r = compare_frame(fr, opts, out)
         if r:
-            return viol("diff|%s|dpv%d" % (r[0], opts.get("dpv", 1)), r[1], labels=labels)
+            return viol("diff|%s|dpv%d%s" % (r[0], opts.get("dpv", 1), n0), r[1], labels=labels)
     return ok(nontrivial(case), labels)
 
 
